@@ -497,3 +497,10 @@ func (s *Scratch) generateNoAppend(u *Unit) {
 	tmp := &Scratch{Dir: s.Dir}
 	tmp.Generate(u)
 }
+
+// SetAside moves a unit's directory out of the module (e.g. a unit thriftgo rejected half-way).
+func SetAside(s *Scratch, u *Unit) {
+	aside := filepath.Join(s.Dir, "_aside")
+	os.MkdirAll(aside, 0o755)
+	os.Rename(u.Dir, filepath.Join(aside, u.Name))
+}
